@@ -63,7 +63,13 @@ class ArgSpec:
             case bool():
                 return str(arg).lower()
             case str():
-                return f'"{arg}"'
+                escaped = (
+                    arg.replace("\\", "\\\\")
+                    .replace('"', '\\"')
+                    .replace("\n", "\\n")
+                    .replace("\t", "\\t")
+                )
+                return f'"{escaped}"'
             case int():
                 return str(arg)
             case float():
